@@ -121,8 +121,23 @@ def boundary_cases():
     return out
 
 
+def enc_boundary_groups():
+    """every encoder (codec, contiguous, split, vectored, ...) on batches whose empty frames sit at the start, in the
+    middle, at the END of a batch and between two batches: all must emit the codec encoder's bytes"""
+    out = []
+    gid = 100000
+    shapes = [[[0]], [[5, 0]], [[0, 5]], [[300, 0]], [[0, 0]], [[1, 0], [7]], [[0], [0], [3]], [[20000, 0]], [[20000, 0], [20000]],
+              [[2, 0, 0]], [[0, 2, 0]]]
+    for shape in shapes:
+        gid += 1
+        bs = [[{"more": i < len(g) - 1, "cmd": False, "len": n, "seed": 7 * i + n % 251} for i, n in enumerate(g)] for g in shape]
+        for enc in range(6):
+            out.append({"k": "enc", "enc": enc, "batches": bs, "group": gid})
+    return out
+
+
 def gen_cases(rng, n):
-    cases = boundary_cases()
+    cases = boundary_cases() + enc_boundary_groups()
     gid = 0
     while len(cases) < n:
         r = rng.random()
